@@ -39,7 +39,7 @@ func init() {
 		Rule: "one run = histories of json calls (Marshal, Encoder.Encode, Unmarshal, Parse with a ParseFlags subset, Decoder.Decode×k over a simulated reader, Tokenizer pass, scribble over an input, recheck) for 1..3 simulated goroutines plus pool policy and schedule, from the tape; non-trivial = at least one fault fired (an input was scribbled while results from it were live, a pooled buffer was reused after poison, the Decoder refilled its buffer between two results, or a context switch happened); distinct = distinct hash of (operations, documents, flags, schedule trace)",
 		FaultKinds: []string{"scribble-input-with-live-results", "pooled-buffer-poisoned-and-reused", "decoder-refill-between-results", "decoder-reader-chunked", "context-switch", "zero-copy-flags", "loose-capacity-input",
 			"pool-policy:lifo", "pool-policy:fifo", "pool-policy:random", "pool-policy:never-reuse", "pool-policy:drop-on-put"},
-		ProbeNames: []string{"ops", "inputs-checked-unchanged", "result-leaves-tracked", "leaves-aliasing-input(allowed)", "leaves-rechecked-after-scribble", "marshal-results-rechecked", "decoder-values", "decoder-zero-copy-values-checked-until-next-decode", "encoder-inputs-checked-unchanged", "tokenizer-strings"},
+		ProbeNames: []string{"ops", "inputs-checked-unchanged", "result-leaves-tracked", "leaves-aliasing-input(allowed)", "leaves-rechecked-after-scribble", "marshal-results-rechecked", "decoder-values", "decoder-zero-copy-values-checked-until-next-decode", "encoder-inputs-checked-unchanged", "tokenizer-strings", "writer-buffers-checked-stable-during-write"},
 		Real:       []string{"json.Marshal/Encoder/Unmarshal/Parse/Decoder/Tokenizer compiled from /repo's working tree with sync redirected to the shim"},
 		Model:      []string{"sync.Pool (simulated; poison on put, LIFO reuse by default)", "scheduler", "io.Reader (simio.Reader)", "caller buffers (simio.GuardedBuf: canaries + shadow copy)"},
 		Assumptions: []string{
@@ -67,6 +67,10 @@ type C10Doc struct {
 	} `json:"in"`
 	Esc   string `json:"esc"`
 	UPPER string
+	Q     int     `json:"q,string"`
+	QU    uint16  `json:"qu,string"`
+	QF    float64 `json:"qf,string"`
+	QB    bool    `json:"qb,string"`
 }
 
 const (
@@ -222,7 +226,7 @@ func c10Value(t *tape.Tape, rt reflect.Type) (v, cp reflect.Value) {
 	return
 }
 
-func c10Doc(t *tape.Tape, rt reflect.Type) []byte {
+func c10Doc(t *tape.Tape, rt reflect.Type, perturb bool) []byte {
 	vg := &gen.Values{T: t, C: gen.JSON, MaxMap: 3, MaxLen: 4}
 	v := vg.New(rt)
 	if d, ok := v.Interface().(*C10Doc); ok {
@@ -239,6 +243,50 @@ func c10Doc(t *tape.Tape, rt reflect.Type) []byte {
 		var ib bytes.Buffer
 		stdjson.Indent(&ib, b, "", " ")
 		b = ib.Bytes()
+	}
+	// "all documents": the input must stay untouched for near-valid input too
+	// (results are only tracked when the decode succeeds)
+	if perturb && t.Chance(1, 3) {
+		b = c10Perturb(t, b)
+	}
+	return b
+}
+
+// c10Perturb applies 1..3 character-level edits: leading zeroes inside quoted
+// and bare numbers, a deleted / duplicated / replaced byte, an upper-cased key.
+func c10Perturb(t *tape.Tape, doc []byte) []byte {
+	b := append([]byte(nil), doc...)
+	n := t.Range(1, 3)
+	for k := 0; k < n && len(b) > 0; k++ {
+		switch t.Pick(4, 2, 1, 1, 1, 1) {
+		case 0, 1: // leading zeroes in a number (quoted or bare)
+			start := t.Intn(len(b))
+			for i := 0; i < len(b); i++ {
+				j := (start + i) % len(b)
+				if b[j] >= '0' && b[j] <= '9' && (j == 0 || b[j-1] == '"' || b[j-1] == '-' || b[j-1] == ':' || b[j-1] == ',' || b[j-1] == '[') {
+					z := []byte("0")
+					if t.Bool() {
+						z = []byte("00")
+					}
+					b = append(b[:j:j], append(z, b[j:]...)...)
+					break
+				}
+			}
+		case 2:
+			j := t.Intn(len(b))
+			b = append(b[:j:j], b[j+1:]...)
+		case 3:
+			j := t.Intn(len(b))
+			b = append(b[:j:j], append([]byte{b[j]}, b[j:]...)...)
+		case 4:
+			const alphabet = "\"\\{}[],:0-9eE. tfn\x00\xff"
+			b[t.Intn(len(b))] = alphabet[t.Intn(len(alphabet))]
+		default:
+			j := t.Intn(len(b))
+			if b[j] >= 'a' && b[j] <= 'z' {
+				b[j] -= 32
+			}
+		}
 	}
 	return b
 }
@@ -273,7 +321,7 @@ func c10GenTask(r *core.Run, t *tape.Tape) []*c10Op {
 			op.val, op.valCopy = c10Value(t, op.ty)
 		case c10Unmarshal, c10Parse, c10Tokenizer:
 			op.ty = c10Types(t)
-			doc := c10Doc(t, op.ty)
+			doc := c10Doc(t, op.ty, true)
 			if t.Chance(1, 4) {
 				doc = append(doc, "  \n"...)
 			}
@@ -292,7 +340,7 @@ func c10GenTask(r *core.Run, t *tape.Tape) []*c10Op {
 				op.ndecode = t.Range(20, 200)
 			}
 			for i := 0; i < op.ndecode; i++ {
-				op.stream = append(op.stream, c10Doc(t, op.ty)...)
+				op.stream = append(op.stream, c10Doc(t, op.ty, i == op.ndecode-1)...)
 				op.stream = append(op.stream, '\n')
 				if len(op.stream) > 200<<10 {
 					op.ndecode = i + 1
@@ -321,6 +369,31 @@ func c10GenTask(r *core.Run, t *tape.Tape) []*c10Op {
 		ops = append(ops, op)
 	}
 	return ops
+}
+
+// simWriter is the simulated io.Writer: while it holds the slice it was lent it
+// lets other simulated goroutines run and itself calls back into the library
+// (user code inside Write may do both), then checks that the slice still holds
+// what it held when Write was entered.
+type simWriter struct {
+	out    []byte
+	writes int
+	bad    string
+}
+
+func (w *simWriter) Write(p []byte) (int, error) {
+	w.writes++
+	snap := append([]byte(nil), p...)
+	simhook.Yield(simhook.KOp, -1)
+	if w.writes%2 == 1 {
+		json.Marshal(map[string]int{"reentrant-call-from-inside-Write": len(p)})
+	}
+	simhook.Yield(simhook.KOp, -1)
+	if !bytes.Equal(p, snap) && w.bad == "" {
+		w.bad = fmt.Sprintf("the %d bytes handed to Write changed while the writer was still using them: %q -> %q", len(p), clip(snap, 60), clip(p, 60))
+	}
+	w.out = append(w.out, snap...)
+	return len(p), nil
 }
 
 func (tr *c10TaskRes) failf(key, format string, a ...any) {
@@ -404,10 +477,14 @@ func c10Exec(task int, ops []*c10Op, tr *c10TaskRes) {
 			}
 			tr.probes["encoder-inputs-checked-unchanged"]++
 		case c10Encoder:
-			var w bytes.Buffer
-			enc := json.NewEncoder(&w)
+			w := &simWriter{}
+			enc := json.NewEncoder(w)
 			for k := 0; k < 2; k++ {
 				enc.Encode(op.val.Interface())
+			}
+			tr.probes["writer-buffers-checked-stable-during-write"] += int64(w.writes)
+			if w.bad != "" {
+				tr.failf("writer-buffer-changed-during-write", "Encoder.Encode: %s", w.bad)
 			}
 			if !reflect.DeepEqual(op.val.Interface(), op.valCopy.Interface()) {
 				tr.failf("encoder-input-modified", "Encoder.Encode modified the value it was given")
